@@ -28,6 +28,7 @@ type Solver struct {
 	in      io.WriteCloser
 	out     *bufio.Reader
 	defined map[int]bool
+	seq     int
 	Log     io.Writer // optional: full transcript
 	// statistics
 	NSat, NUnsat, NUnknown int
@@ -186,26 +187,32 @@ func (s *Solver) Check(assertions []*Term, modelVars []*Term) (Result, []uint64)
 		fmt.Fprintf(&sb, "(assert %s)\n", n)
 	}
 	sb.WriteString("(check-sat)\n")
+	s.seq++
+	marker := fmt.Sprintf("@@%d", s.seq)
+	fmt.Fprintf(&sb, "(echo \"%s\")\n", marker)
 	s.send(sb.String())
-	line, err := s.readLine()
 	res := Unknown
-	switch {
-	case err != nil:
-		s.Errors = append(s.Errors, "solver died: "+err.Error()+" "+line)
-	case line == "sat":
-		res = Sat
-	case line == "unsat":
-		res = Unsat
-	case line == "unknown" || strings.HasPrefix(line, "timeout"):
-		res = Unknown
-	default:
-		s.Errors = append(s.Errors, line)
-		// drain possible follow-up line (z3 prints error then verdict)
-		if strings.HasPrefix(line, "(error") {
-			l2, _ := s.readLine()
-			s.Errors = append(s.Errors, "after error: "+l2)
+	got := false
+	for {
+		line, err := s.readLine()
+		if err != nil {
+			s.Errors = append(s.Errors, "solver died: "+err.Error()+" "+line)
+			break
 		}
-		res = Unknown
+		if strings.Contains(line, marker) {
+			break
+		}
+		switch {
+		case line == "sat" && !got:
+			res, got = Sat, true
+		case line == "unsat" && !got:
+			res, got = Unsat, true
+		case (line == "unknown" || strings.HasPrefix(line, "timeout")) && !got:
+			res, got = Unknown, true
+		default:
+			s.Errors = append(s.Errors, line)
+			res, got = Unknown, true
+		}
 	}
 	var model []uint64
 	if res == Sat && len(modelVars) > 0 {
@@ -215,12 +222,26 @@ func (s *Solver) Check(assertions []*Term, modelVars []*Term) (Result, []uint64)
 			q.WriteString(n)
 			q.WriteByte(' ')
 		}
-		q.WriteString("))\n")
+		s.seq++
+		marker = fmt.Sprintf("@@%d", s.seq)
+		fmt.Fprintf(&q, "))\n(echo \"%s\")\n", marker)
 		s.send(q.String())
-		txt := s.readSexp()
-		model = parseModel(txt)
-		if strings.Contains(txt, "(error") || len(model) != len(modelVars) {
-			s.Errors = append(s.Errors, "get-value: "+txt)
+		var txt strings.Builder
+		for {
+			line, err := s.readLine()
+			if err != nil {
+				s.Errors = append(s.Errors, "solver died: "+err.Error())
+				break
+			}
+			if strings.Contains(line, marker) {
+				break
+			}
+			txt.WriteString(line)
+			txt.WriteByte(' ')
+		}
+		model = parseModel(txt.String())
+		if strings.Contains(txt.String(), "(error") || len(model) != len(modelVars) {
+			s.Errors = append(s.Errors, "get-value: "+txt.String())
 			res = Unknown
 			model = nil
 		}
